@@ -188,6 +188,15 @@ func exprShape(info *types.Info, e ast.Expr) string {
 		if tv, ok := info.Types[x.Fun]; ok && tv.IsType() && len(x.Args) == 1 {
 			return exprShape(info, x.Args[0])
 		}
+		if id, ok := x.Fun.(*ast.Ident); ok {
+			if _, isB := info.Uses[id].(*types.Builtin); isB {
+				var as []string
+				for _, a := range x.Args {
+					as = append(as, exprShape(info, a))
+				}
+				return id.Name + "(" + strings.Join(as, ",") + ")"
+			}
+		}
 	case *ast.BasicLit:
 		return x.Value
 	case *ast.Ident:
@@ -329,4 +338,80 @@ func assignTo(info *types.Info, field *types.Var) Match {
 		}
 		return false
 	}
+}
+
+// AllFalseEdges: false edges of conditions that are conjunctions whose every
+// conjunct, when false, satisfies pred — i.e. on the edge at least one of the
+// accepted facts holds and nothing else can have caused the branch.
+func (f *Flow) AllFalseEdges(pred func(cm cmp) bool) map[Edge]bool {
+	out := map[Edge]bool{}
+	for _, b := range f.G.Blocks {
+		cond := f.Cond(b)
+		if !b.Live || cond == nil {
+			continue
+		}
+		var conj []ast.Expr
+		var flat func(e ast.Expr)
+		flat = func(e ast.Expr) {
+			e = ast.Unparen(e)
+			if be, ok := e.(*ast.BinaryExpr); ok && be.Op == token.LAND {
+				flat(be.X)
+				flat(be.Y)
+				return
+			}
+			conj = append(conj, e)
+		}
+		flat(cond)
+		all := len(conj) > 0
+		for _, cj := range conj {
+			var facts []condFact
+			condFacts(cj, false, &facts)
+			okc := false
+			if len(facts) == 1 {
+				if cm, ok := asCmp(facts[0].E, facts[0].Val); ok && (pred(cm) || pred(cm.flip())) {
+					okc = true
+				}
+			}
+			if !okc {
+				all = false
+			}
+		}
+		if all {
+			out[Edge{b, 1}] = true
+		}
+	}
+	return out
+}
+
+// methodsOf lists the declared methods (with bodies) of a named type.
+func (c *Ctx) methodsOf(named *types.Named) []*Fn {
+	var out []*Fn
+	for obj := range c.P.declOf {
+		sig, _ := obj.Type().(*types.Signature)
+		if sig == nil || sig.Recv() == nil {
+			continue
+		}
+		if n := namedOf(sig.Recv().Type()); n != nil && n.Origin().Obj() == named.Origin().Obj() {
+			if fn := c.fnOfObj(obj); fn != nil {
+				out = append(out, fn)
+			}
+		}
+	}
+	sort.Slice(out, func(i, j int) bool { return out[i].Obj.Name() < out[j].Obj.Name() })
+	return out
+}
+
+// tryField resolves a field that may not exist (nil then).
+func (c *Ctx) tryField(pkgRel, typ, field string) *types.Var {
+	named := c.Named(pkgRel, typ)
+	st, ok := named.Underlying().(*types.Struct)
+	if !ok {
+		return nil
+	}
+	for i := 0; i < st.NumFields(); i++ {
+		if st.Field(i).Name() == field {
+			return st.Field(i).Origin()
+		}
+	}
+	return nil
 }
